@@ -867,6 +867,19 @@ impl World {
         true
     }
 
+    /// The host hands a held snapshot back to the runtime (`set_listing(snapshot, false)`): an
+    /// "undo" a front end may offer. Returns false when the slot is empty.
+    pub fn snap_restore(&mut self, i: usize) -> bool {
+        let l = match self.snaps.get(i) {
+            Some(Some(x)) => x.0.clone(),
+            _ => return false,
+        };
+        self.stats.bump("snapshot.restored");
+        self.note(format!("set_listing(snapshot {}, false)", i));
+        self.guarded("set_listing", ENTER_BUDGET, move |rt| rt.set_listing(l, false));
+        true
+    }
+
     pub fn snap_drop(&mut self, i: usize) {
         if let Some(s) = self.snaps.get_mut(i) {
             *s = None;
